@@ -7,7 +7,7 @@ Proof. solve_decision. Defined.
 
 Record case := mkCase {
   c_in : authin;
-  c_route : N;             (* 0 batched submission, 1 task, 2 immediate NBTx, 3 query with a sender *)
+  c_route : N;             (* 0 batched submission, 1 task, 2 immediate NBTx, 3 query with a sender, 4 core.CheckSign *)
   o_res : aobs;            (* accepted for address / rejected with class *)
   o_changed : bool;        (* the ledger changed *)
   c_valid : nat;           (* how many positions the harness filled with a genuine signature of that key over this request *)
@@ -25,6 +25,12 @@ Definition nonce13 (s : list N) : bool :=
    same call: an authenticated request with an ill-formatted nonce is observed as rejected
    with the nonce error (C02's subject), on the other routes it is accepted at this stage. *)
 Definition corr (c : case) : bool :=
+  if N.eqb (c_route c) 4 then   (* the older request format, through core.CheckSign *)
+    match check_sign (c_in c) with
+    | Ok a => bool_decide (o_res c = OAccept a)
+    | Err e => bool_decide (o_res c = OReject e)
+    end
+  else
   match auth (c_in c) with
   | Ok o => if N.eqb (c_route c) 1 && negb (nonce13 (r_nonce o))
             then bool_decide (o_res c = OReject EBadNonce)
@@ -49,6 +55,7 @@ Definition holds03 (c : case) : bool :=
   end.
 
 Definition label (c : case) : N :=
+  if N.eqb (c_route c) 4 then match check_sign (c_in c) with Ok _ => 1024 | Err _ => 2048 end else
   match auth (c_in c) with
   | Ok _ => 1
   | Err EArgs => 2 | Err ENotSigned => 4 | Err EName => 8 | Err EAcl => 16 | Err EBlack => 32
